@@ -31,9 +31,13 @@ type Machine struct {
 	everDeleted map[uint32][]bool // offsets deleted at some point -> columns that held a value when deleted
 	actions     int
 	bigPrefills int
+	lastRes     []StepResult
+	lastPrefillBase    int
+	lastPrefillOffsets []uint32
 
 	// observers
-	OnTxn func(spec TxnSpec, res []StepResult, committed bool, eff *TxnEffect) // after model update
+	OnTxn    func(spec TxnSpec, res []StepResult, committed bool, eff *TxnEffect) // after model update
+	InFlight func(i int, txn *column.Txn, res []StepResult)                        // inside the body, after step i
 }
 
 func NewMachine(prop string, sch *Schema, opts column.Options) *Machine {
@@ -109,8 +113,9 @@ func (mc *Machine) RunTxn(t *rapid.T, spec TxnSpec, direct bool) (*TxnEffect, bo
 		res, err, ran = execDirect(mc.C, mc.Sch, mc.M.ColLive, spec)
 	}
 	if !ran {
-		res, err = execTxn(mc.C, mc.Sch, mc.M.ColLive, spec)
+		res, err = execTxnObs(mc.C, mc.Sch, mc.M.ColLive, spec, mc.InFlight)
 	}
+	mc.lastRes = res
 	committed := err == nil
 	if (spec.FailAt >= 0) == committed && !(direct && ran) {
 		mc.fail(t, "Query returned err=%v for a body that returned error=%v", err, spec.FailAt >= 0)
@@ -252,6 +257,7 @@ func (mc *Machine) ActPrefill(t *rapid.T, n int, cols []int, seed uint64) {
 	offsets := make([]uint32, 0, n)
 	keyed := mc.Sch.Key >= 0
 	base := len(mc.M.Rows) + len(mc.everDeleted)
+	mc.lastPrefillBase = base
 	err := mc.C.Query(func(txn *column.Txn) error {
 		for i := 0; i < n; i++ {
 			body := func(r column.Row) error {
@@ -274,6 +280,7 @@ func (mc *Machine) ActPrefill(t *rapid.T, n int, cols []int, seed uint64) {
 	if err != nil {
 		mc.fail(t, "prefill transaction failed: %v", err)
 	}
+	mc.lastPrefillOffsets = offsets
 	if len(offsets) != n {
 		mc.fail(t, "prefill: %d insert callbacks ran, want %d", len(offsets), n)
 	}
@@ -506,4 +513,56 @@ func trimStack(s string) string {
 		}
 	}
 	return strings.Join(out, "\n")
+}
+
+// CheckKeys verifies, for every key of the alphabet (and every key the model
+// holds), that lookups by key agree with the model.
+func (mc *Machine) CheckKeys(t *rapid.T, extra ...string) {
+	if mc.Sch.Key < 0 {
+		return
+	}
+	keys := append(append([]string{}, keyAlphabet...), extra...)
+	live := mc.M.Live()
+	if len(live) <= 64 {
+		for _, off := range live {
+			if c := mc.M.Rows[off][mc.Sch.Key]; c.Has {
+				keys = append(keys, c.V.S)
+			}
+		}
+	}
+	seen := map[string]bool{}
+	for _, k := range keys {
+		if seen[k] {
+			continue
+		}
+		seen[k] = true
+		owners := mc.M.KeyOwners(k)
+		if len(owners) > 1 {
+			mc.fail(t, "model holds key %q on rows %v (the generator must not create duplicates)", k, owners)
+		}
+		ran := false
+		var at uint32
+		var rowKey string
+		var rowKeyOK bool
+		err := mc.C.QueryKey(k, func(r column.Row) error {
+			ran, at = true, r.Index()
+			rowKey, rowKeyOK = r.Key()
+			return nil
+		})
+		if len(owners) == 0 {
+			if err == nil || ran {
+				mc.fail(t, "QueryKey(%q): key is absent in the model but the lookup reached row %d (err=%v)", k, at, err)
+			}
+			continue
+		}
+		if err != nil || !ran {
+			mc.fail(t, "QueryKey(%q): key is held by row %d in the model but the lookup failed: %v", k, owners[0], err)
+		}
+		if at != owners[0] {
+			mc.fail(t, "QueryKey(%q) reached row %d, the model has the key on row %d", k, at, owners[0])
+		}
+		if !rowKeyOK || rowKey != k {
+			mc.fail(t, "QueryKey(%q) reached row %d whose Key() is %q,%v", k, at, rowKey, rowKeyOK)
+		}
+	}
 }
